@@ -10,9 +10,18 @@ TECH = "contract-based deductive verification: WP/symbolic execution over go/ssa
 
 # id -> (claimed?, level text, level note, design ref)
 CLAIMS = {
-    "C02": ("Proof, for all proofs/digests/snapshots, that the real balloon.MembershipProof.DigestVerify only accepts when Exists and ActualVersion <= QueryVersion and both sub-proofs are present (postconditions taken from the property statement), plus panic-freedom of that function. The binding of the digest inside the history/hyper verifiers is covered only as far as the contracts listed in evidence/C02.json reach.",
-            "Assumes: hash collision resistance; authentic snapshots; hyper.QueryProof.Verify and history.MembershipProof.Verify are used through their contracts; engine qedvc, go/ssa, SMT solvers.",
+    "C02": ("Proof, for all proofs/digests/snapshots, that the real balloon.MembershipProof.DigestVerify (and client.MembershipVerify) only accept when Exists and ActualVersion <= QueryVersion and both sub-proofs are present (postconditions taken from the property statement); that protocol.ToBalloonProof wires the history proof to (ActualVersion, QueryVersion) and the hyper proof to the key digest; plus panic-freedom and termination of the history/hyper verifier functions it calls. The cryptographic binding of the digest inside the history/hyper recomputation is NOT yet proved (needs the inductive tree contracts, DESIGN.md appendix A).",
+            "Assumes: hash collision resistance; authentic snapshots; hasher factory pure and non-nil; interpretation of the hyper operation stack (closures stored in the stack) assumed panic-free; engine qedvc, go/ssa, SMT solvers.",
             "DESIGN.md section 4, C02"),
+    "C12": ("Proof of panic-freedom (every index, slice, nil dereference, type assertion, explicit panic, division, make) and of termination of the recursive pruning closures, for ALL inputs, of the client-side decode-and-verify path: protocol.To*Proof, history.ParseAuditPath, history/hyper proof Verify with their pruning functions and visitors, balloon DigestVerify / IncrementalProof.Verify, client.Membership*/Incremental*/GetSnapshot/*Verify/*AutoVerify, and the auditor/monitor/publisher task closures on arbitrary gossiped batches. Seven genuine defects were found this way, replayed on the real code and fixed (known_findings.txt).",
+            "Assumes: JSON decoding yields an arbitrary well-typed value or an error; the hyper stack interpreter closures (calls through operation.Interpret) are assumed panic-free and the stack never holds nil (stated `assumes` clause); memory exhaustion by oversized answers is not modelled; deployment preconditions (agent built with its services, hasher factory pure/non-nil).",
+            "DESIGN.md section 4, C12"),
+    "C13": ("Proof, for all inputs, that the Go-side wire translations preserve every field: ToBalloonProof/ToMembershipResult/ToIncrementalProof/ToIncrementalResponse field-by-field postconditions, history proof rebuilt with Index=ActualVersion and Version=QueryVersion, hyper value rebuilt with the hasher's length; big-endian helpers of util proved against be64/be16; AddPaddingToBytes total with its exact length contract.",
+            "Assumes: encoding/json and msgpack codecs round-trip (decode(encode(x)) = x) - not verified; audit-path key string round trip (Sprintf/Split/Atoi) not verified; equal verification verdict of decoded and original proof follows only under those assumptions.",
+            "DESIGN.md section 4, C13"),
+    "C19": ("Proof, for all batches and all behaviours of the abstract services, that the auditor and monitor task closures raise an alert iff the verification they reached returned false (ghost counters alerts / verifyCalls / lastVerify defined by the contracts of Notifier.Alert and client.*Verify), perform at most one verification, and that the publisher task calls PutBatch at most once; plus panic-freedom of the three factories and tasks on arbitrary gossiped batches.",
+            "Assumes: contracts of the services (Notifier, SnapshotStore, Cache, QED client) as ghost bookkeeping; 'no alert on an honest log' additionally needs completeness of the proofs (C01/C03), not proved here; publisher 'never forwards the same snapshot twice' relies on the cache contract (not modelled beyond at-most-one PutBatch per task).",
+            "DESIGN.md section 4, C19"),
 }
 
 NA = {
